@@ -29,7 +29,7 @@ def task_operators(ctx, cfg, levels, lname, kind):
   specs = models.unit_specs()
   rng = np.random.default_rng(2)
   base, zm = models.admissible_masks(grid)
-  oro = rng.uniform(-0.3, 0.3, grid.modal_shape) * base
+  oro = rng.uniform(-0.3, 0.3, grid.modal_shape) * grid.mask   # incl. the top wavenumber (un-clipped orography)
   tref = np.linspace(1.0, 1.4, K)
   cls = {'dry': pe.PrimitiveEquations, 'moist': pe.MoistPrimitiveEquations}[kind]
   eq = cls(tref, oro, coords, specs)
@@ -239,7 +239,7 @@ def task_direct_step(ctx, cfg, levels, lname, stepper):
   K = coords.vertical.layers
   rng = np.random.default_rng(4)
   base, zm = models.admissible_masks(grid)
-  eq = pe.PrimitiveEquations(np.linspace(1.0, 1.4, K), rng.uniform(-0.3, 0.3, grid.modal_shape) * base, coords, models.unit_specs())
+  eq = pe.PrimitiveEquations(np.linspace(1.0, 1.4, K), rng.uniform(-0.3, 0.3, grid.modal_shape) * grid.mask, coords, models.unit_specs())
   ms = coords.modal_shape; ss = coords.surface_modal_shape
   m, l = grid.modal_mesh
   outside = (~grid.mask) | (l >= grid.total_wavenumbers - 1)
@@ -292,7 +292,7 @@ def task_sw(ctx, cfg):
   specs = sw.ShallowWaterSpecs(densities=np.array([1.0, 1.2]), radius=float(grid.radius), angular_velocity=1.0, gravity_acceleration=1.0, scale=scales.DEFAULT_SCALE)
   base, zm = models.admissible_masks(grid)
   rng = np.random.default_rng(9)
-  eq = sw.ShallowWaterEquations(coords, specs, rng.uniform(-0.2, 0.2, grid.modal_shape) * base, np.array([1.0, 1.5]))
+  eq = sw.ShallowWaterEquations(coords, specs, rng.uniform(-0.2, 0.2, grid.modal_shape) * grid.mask, np.array([1.0, 1.5]))
   ctx.encoded(sw.ShallowWaterEquations.explicit_terms, sw.ShallowWaterEquations.implicit_terms, sw.ShallowWaterEquations.implicit_inverse)
   ms = (nl,) + grid.modal_shape
   m, l = grid.modal_mesh
